@@ -158,6 +158,7 @@ fn scenario_for(prop: &str) -> Option<Box<dyn coord::Scenario>> {
         "C05" => Some(Box::new(scen::w2::W2Scenario { prop: "C05" })),
         "C07" => Some(Box::new(scen::crash::CrashScenario)),
         "C08" => Some(Box::new(scen::pop::PopScenario { prop: "C08" })),
+        "C12" => Some(Box::new(scen::checker::CheckerScenario)),
         "C14" => Some(Box::new(scen::structs::StructScenario)),
         "C15" => Some(Box::new(scen::w3::W3Scenario)),
         "C18" => Some(Box::new(scen::rl::RlScenario)),
